@@ -5,7 +5,7 @@ From Coq Require Import List NArith Bool Arith Lia.
 Import ListNotations.
 From UV Require Import Py.Val Py.Str Py.StrFacts Py.UrlLib Py.Regex Py.RegexFacts Proofs.RegexTail.
 
-Inductive atom := AChar (l : N) | ABol | AEol.
+Inductive atom := AChar (l : N) | ABol | AEol | APlus (l : N).   (* APlus l: one or more characters other than l *)
 
 Fixpoint paths (r : re) : option (list (list atom)) :=
   match r with
@@ -14,6 +14,7 @@ Fixpoint paths (r : re) : option (list (list atom)) :=
   | Bol => Some [[ABol]]
   | Eol => Some [[AEol]]
   | Grp _ a => paths a
+  | Rep (NotLit l) 1 None => Some [[APlus l]]
   | Seq a b =>
       match paths a, paths b with
       | Some pa, Some pb => Some (flat_map (fun x => map (fun y => x ++ y) pb) pa)
@@ -36,16 +37,19 @@ Fixpoint run (path : list atom) (p p' : pst) : Prop :=
   | AChar l :: r => exists p1, char_step (lit_test f l) p p1 /\ run r p1 p'
   | ABol :: r => ppre p = [] /\ run r p p'
   | AEol :: r => (prest p = [] \/ prest p = [10%N]) /\ run r p p'
+  | APlus l :: r => exists w t, prest p = w ++ t /\ w <> [] /\ forallb (fun c => negb (lit_test f l c)) w = true /\
+                                run r (padv p w t) p'
   end.
 
 Lemma run_app x y p p1 p' : run x p p1 -> run y p1 p' -> run (x ++ y) p p'.
 Proof.
   revert p. induction x as [|a x IH]; intros p Hx Hy; cbn [run app] in *.
   - subst. exact Hy.
-  - destruct a as [l| |].
+  - destruct a as [l| | |l].
     + destruct Hx as (q & Hc & Hr). exists q. split; [exact Hc|]. eapply IH; eassumption.
     + destruct Hx as [Hb Hr]. split; [exact Hb|]. eapply IH; eassumption.
     + destruct Hx as [He Hr]. split; [exact He|]. eapply IH; eassumption.
+    + destruct Hx as (w & t & H1 & H2 & H3 & Hr). exists w, t. repeat split; try assumption. eapply IH; eassumption.
 Qed.
 
 Lemma matches_follows_path r : forall ps p p', paths r = Some ps -> matches f r p p' -> exists path, In path ps /\ run path p p'.
@@ -63,6 +67,12 @@ Proof.
     cbn [matches] in Hm. destruct Hm as [H|H].
     + destruct (IHa _ _ _ eq_refl H) as (x & Hx & Rx). exists x. split; [apply in_or_app; left; exact Hx|exact Rx].
     + destruct (IHb _ _ _ eq_refl H) as (x & Hx & Rx). exists x. split; [apply in_or_app; right; exact Hx|exact Rx].
+  - (* Rep (NotLit l) 1 None *)
+    destruct body as [| | l | | | | | | | | | | |]; try discriminate.
+    destruct mn as [|[|mn]]; try discriminate. destruct mx; try discriminate. injection Hps as <-.
+    cbn [matches] in Hm. apply reps_chars_inv in Hm. destruct Hm as (w & t & Hw & Hf & -> & Hmn & _).
+    exists [APlus l]. split; [left; reflexivity|]. cbn [run]. exists w, t. repeat split; try assumption.
+    destruct w; [cbn in Hmn; lia|discriminate].
   - cbn [matches] in Hm. eapply IHa; eassumption.
   - injection Hps as <-. destruct Hm as [-> Hb]. exists [ABol]. split; [left; reflexivity|]. cbn [run]. split; [exact Hb|reflexivity].
   - injection Hps as <-. destruct Hm as [-> He]. exists [AEol]. split; [left; reflexivity|]. cbn [run]. split; [exact He|reflexivity].
@@ -162,10 +172,11 @@ Definition path_word (path : list atom) : option (list N) :=
 Lemma chars_then_eol_spec path w : chars_then_eol path = Some w -> path = map AChar w ++ [AEol].
 Proof.
   revert w. induction path as [|a r IH]; intros w H; cbn [chars_then_eol] in H; [discriminate|].
-  destruct a as [l| |].
+  destruct a as [l| | |l].
   - destruct (chars_then_eol r) as [w0|] eqn:E; [|discriminate]. injection H as <-. rewrite (IH _ eq_refl). reflexivity.
   - discriminate.
   - destruct r; [injection H as <-; reflexivity|discriminate].
+  - discriminate.
 Qed.
 
 Definition all_paths_in (ps : list (list atom)) (allowed : list (list N)) : bool :=
@@ -181,7 +192,7 @@ Proof.
   unfold all_paths_in in Hall. rewrite forallb_forall in Hall. specialize (Hall _ Hin).
   destruct (path_word path) as [w|] eqn:Ew; [|discriminate]. apply mem_str_spec in Hall.
   exists w. split; [exact Hall|].
-  destruct path as [|[l| |] r]; cbn [path_word] in Ew; try discriminate.
+  destruct path as [|[l| | |l] r]; cbn [path_word] in Ew; try discriminate.
   - assert (l = 46%N) as -> by (destruct l as [|q]; [discriminate|]; destruct (N.eq_dec (N.pos q) 46) as [->|n]; [reflexivity|];
       exfalso; revert Ew; repeat (destruct q as [q|q|]; try discriminate); congruence).
     apply chars_then_eol_spec in Ew. subst r. eapply run_dot_word. exact Hrun.
